@@ -119,7 +119,7 @@ class Permutations2:
     def ensures(self, a0, a1, result):
         return {
             "pairs": implies(a1 == 2, forall(result, lambda p: p is tuple2(at(p, 0), at(p, 1)) and at(p, 0) in a0 and at(p, 1) in a0 and not (at(p, 0) is at(p, 1)))),
-            "all_pairs": implies(a1 == 2, forall(a0, lambda a: forall(a0, lambda b: implies(not (a is b), tuple2(a, b) in result)))),
+            "all_pairs": implies(a1 == 2, forall(a0, lambda a: forall(a0, lambda b: implies(not (a is b), exists(range(seq_len(result)), lambda k: at(result, k) is tuple2(a, b)))))),
         }
 
 
@@ -187,4 +187,44 @@ def registry_remove_by_name_loop(self, name, _it, _seq):
         "nothing_added": forall(self.types, lambda t: t in _seq),
         "still_classes": forall(self.types, lambda t: is_class(t)),
         "still_once": distinct(self.types) and distinct(_seq),
+    }
+
+
+@contract(REG + ".resolve", props=["C09", "C01"])
+class RegistryResolve:
+    """C09: resolve only drops a pseudo-type when another *given* type replaces it (so, with a replace relation that is
+    sound - the replacing type accepts every string the replaced one accepts - nothing is lost); it returns a subset of
+    what it was given; no survivor is replaceable by another survivor.  (The step from these three facts to 'every given
+    type is covered by a survivor' is induction over the finite acyclic replace relation: Lean lemma L-RESOLVE.)"""
+    sorts = {"types": "tuple", "result": "set", "replaces": "set", "replaced": "set", "flag": "bool"}
+
+    def requires(self, types):
+        return {"replaces_are_pairs": forall(self.replaces, lambda p: p is tuple2(at(p, 0), at(p, 1)))}
+
+    def ensures(self, types, result):
+        return {
+            "subset_of_given": forall(result, lambda r: r in as_set_of(types)),
+            "no_survivor_replaceable": forall(result, lambda a: forall(result, lambda b: implies(not (a is b), not (tuple2(a, b) in self.replaces)))),
+            "dropped_only_if_replaced": forall(as_set_of(types), lambda t: implies(not (t in result), exists(as_set_of(types), lambda u: not (u is t) and tuple2(t, u) in self.replaces)),
+                                               lambda t: t in result),
+        }
+
+
+@loop(REG + ".resolve", 1)
+def resolve_outer(self, types, pre_types, flag):
+    given = as_set_of(pre_types)
+    return {
+        "subset": forall(types, lambda r: r in given),
+        "dropped_replaced": forall(given, lambda t: implies(not (t in types), exists(given, lambda u: not (u is t) and tuple2(t, u) in self.replaces)),
+                                   lambda t: t in types),
+        "stable_when_done": implies(not flag, forall(types, lambda a: forall(types, lambda b: implies(not (a is b), not (tuple2(a, b) in self.replaces))))),
+    }
+
+
+@loop(REG + ".resolve", 2)
+def resolve_inner(self, types, replaced, flag, _it, _seq):
+    return {
+        "replaced_have_replacement": forall(replaced, lambda x: x in types and exists(types, lambda u: not (u is x) and tuple2(x, u) in self.replaces)),
+        "flag_iff_found": flag == exists(range(_it), lambda j: _seq[j] in self.replaces),
+        "found_are_marked": forall(range(_it), lambda j: implies(_seq[j] in self.replaces, at(_seq[j], 0) in replaced)),
     }
